@@ -59,6 +59,9 @@ def run(tier):
     vlib.run_harness(["config", "record", "--seed", c.seed, "--tier", tier, "--out", t2, "--workdir", work], timeout=900)
     ev = decide(t2, "code->spec")
     c.sample({"direction": "code->spec", "event": ev[0]})
+    # the value the server RUNS with: a running in-process Server must not sign batches larger than the configured batch_size
+    from checks import servercommon as sc
+    sc.server_stage(c, "batchcfg", "batchcfg")
     c.rule = ("spec->code: every Load transition of MC_Config (valid base + <= MaxEdits edits over an 18-value boundary grid for 6 integer keys, "
               "seed/interface/client_stats/persistence/unknown-key variations, file and env); code->spec: seeded multi-key configurations; "
               "distinct = (source, written, running?)")
